@@ -543,7 +543,16 @@ impl<T: Storage> RawNode<T> {
             rd.must_sync = true;
         }
 
-        rd.entries = raft.raft_log.unstable_entries().to_vec();
+        #[cfg(not(tikv_raft_rs_verif))]
+        {
+            rd.entries = raft.raft_log.unstable_entries().to_vec();
+        }
+        // verification builds copy element by element: `<[T]>::to_vec` writes through
+        // `MaybeUninit` (a union), which defeats constant propagation in CBMC
+        #[cfg(tikv_raft_rs_verif)]
+        {
+            rd.entries = crate::verif_shim::clone_vec(raft.raft_log.unstable_entries());
+        }
         if let Some(e) = rd.entries.last() {
             // If the last entry exists, the entries must not empty, vice versa.
             rd.must_sync = true;
